@@ -67,6 +67,14 @@ def main(argv=None):
     a = ap.parse_args(argv)
 
     sys.setrecursionlimit(3000)
+    try:
+        # an address-space cap: a case that asks for an absurd allocation (a '%99999999999d' format) gets a
+        # MemoryError it can be judged by, instead of taking the sandbox down
+        import resource
+        cap = int(os.environ.get("VF_WORKER_AS_GB", "6")) * 2**30
+        resource.setrlimit(resource.RLIMIT_AS, (cap, cap))
+    except Exception:
+        pass
     signal.signal(signal.SIGALRM, _alarm)
     t0 = time.time()
     prop = load_prop(a.pid)
